@@ -662,14 +662,29 @@ func (x *Exec) loop(ls *loopSpec, st *State) *Flow {
 	}
 	f := x.block(ls.body, body)
 	out.rets = append(out.rets, f.rets...)
-	back := fx.mergeScoped(append([]*State{f.fall}, f.cont...), head)
-	if back != nil {
+	// every back edge is checked separately (no merged ite terms under the quantifiers)
+	var edges []*State
+	if f.fall != nil {
+		edges = append(edges, f.fall)
+	}
+	edges = append(edges, f.cont...)
+	for ei, back := range edges {
+		for o := range back.env {
+			if _, ok := head.env[o]; !ok {
+				delete(back.env, o)
+			}
+		}
 		if ls.post != nil {
 			pf := ls.post(back)
 			back = pf.fall
 		}
-	}
-	if back != nil {
+		if back == nil {
+			continue
+		}
+		suffix := ""
+		if len(edges) > 1 {
+			suffix = fmt.Sprintf("@edge%d", ei+1)
+		}
 		for i, inv := range invs {
 			lbl := inv.Label
 			if lbl == "" {
@@ -677,15 +692,15 @@ func (x *Exec) loop(ls *loopSpec, st *State) *Flow {
 			}
 			ce := fx.clauseEv(back, ls.bodyPos, nil)
 			t := ce.boolOf(ce.ev(inv.Expr), inv.Expr)
-			fx.oblige("inv-pres", lname+".pres."+lbl, ls.node.Pos(), back.pc, t, "loop invariant is preserved: "+inv.Text)
+			fx.oblige("inv-pres", lname+".pres."+lbl+suffix, ls.node.Pos(), back.pc, t, "loop invariant is preserved: "+inv.Text)
 		}
 		if dec != nil {
 			ce := fx.clauseEv(back, ls.bodyPos, nil)
 			d1 := ce.intOf(ce.ev(dec.Expr), dec.Expr)
-			fx.oblige("decreases", lname+".decreases", ls.node.Pos(), back.pc, sAnd(sLe("0", d0), sLt(d1, d0)), "loop variant decreases and is bounded below: "+dec.Text)
+			fx.oblige("decreases", lname+".decreases"+suffix, ls.node.Pos(), back.pc, sAnd(sLe("0", d0), sLt(d1, d0)), "loop variant decreases and is bounded below: "+dec.Text)
 		} else if ls.autoDec == nil {
 			if fx.con != nil && fx.con.Options["termination"] != "unchecked" {
-				fx.oblige("decreases", lname+".decreases", ls.node.Pos(), back.pc, "false", "loop has no decreases clause")
+				fx.oblige("decreases", lname+".decreases"+suffix, ls.node.Pos(), back.pc, "false", "loop has no decreases clause")
 			}
 		}
 	}
